@@ -500,11 +500,41 @@ theorem C12_callbacks_container (a : Args) (R : Req) (stop₀ : Bool) (nb : Nat)
   have := C12_dispatch_order (a.cfg nb) R stop₀
   simpa [Args.cfg, h] using this
 
+/-- `_shuffle_data` has something to draw the negative-phase indices from: with bases at least one row
+of the data is measured in the reference basis; without bases either the two batch sizes agree (nothing is
+drawn) or there is at least one row. Otherwise `torch.randint(0, …)` raises (`C12_fit_args_abort`). -/
+def DrawsOk (N nZ posB : Nat) (negB : Option Nat) (hasBases : Bool) : Prop :=
+  (hasBases = true → 1 ≤ nZ) ∧ (hasBases = false → Batching.effNegB negB posB ≠ posB → 1 ≤ N)
+
+theorem shuffleDraw_ok_iff (N nZ posB : Nat) (negB : Option Nat) (hasBases : Bool) :
+    shuffleDraw N nZ posB negB hasBases = .ok () ↔ DrawsOk N nZ posB negB hasBases := by
+  unfold shuffleDraw DrawsOk Batching.randintReq
+  cases hasBases
+  · by_cases h : Batching.effNegB negB posB = posB
+    · simp [h]
+    · by_cases hN : N = 0
+      · simp [h, hN]
+      · simp only [Bool.false_eq_true, if_false, if_neg h, if_neg hN, false_implies, true_and, forall_const, true_iff]
+        intro _; omega
+  · by_cases hZ : nZ = 0
+    · simp [hZ]
+    · simp only [if_true, if_neg hZ, forall_const, true_iff]
+      exact ⟨by omega, by intro h; cases h⟩
+
+theorem shuffleDraw_error (N nZ posB : Nat) (negB : Option Nat) (hasBases : Bool)
+    (h : ¬ DrawsOk N nZ posB negB hasBases) : shuffleDraw N nZ posB negB hasBases = .error .RuntimeError := by
+  have h' := mt (shuffleDraw_ok_iff N nZ posB negB hasBases).mp h
+  unfold shuffleDraw Batching.randintReq at *
+  repeat' split
+  all_goals first | rfl | (exfalso; apply h'; simp_all)
+
 /-- **C12.9** The number of batch-start/batch-end pairs per (uninterrupted) epoch is `⌈N / pos_batch_size⌉`
 whatever `neg_batch_size` is (`None`, smaller, equal, larger than `pos_batch_size`) and with or without
-bases: the zipped iterator is never cut short by the negative batches; at least one batch when `N ≥ 1`. -/
-theorem C12_batches_per_epoch (N posB : Nat) (negB : Option Nat) (hasBases : Bool) (hB : 1 ≤ posB) :
-    batchesPerEpoch N posB negB hasBases = .ok ((N + posB - 1) / posB) ∧
+bases: the zipped iterator is never cut short by the negative batches; at least one batch when `N ≥ 1`.
+(Hypothesis `hD`: the inputs on which `_shuffle_data` does not raise, see `DrawsOk`.) -/
+theorem C12_batches_per_epoch (N nZ posB : Nat) (negB : Option Nat) (hasBases : Bool) (hB : 1 ≤ posB)
+    (hD : DrawsOk N nZ posB negB hasBases) :
+    batchesPerEpoch N nZ posB negB hasBases = .ok ((N + posB - 1) / posB) ∧
     (1 ≤ N → 1 ≤ (N + posB - 1) / posB) := by
   constructor
   · have hne : posB ≠ 0 := by omega
@@ -516,6 +546,7 @@ theorem C12_batches_per_epoch (N posB : Nat) (negB : Option Nat) (hasBases : Boo
         | succ k => exact Nat.succ_le_succ (Nat.zero_le k)
     unfold batchesPerEpoch Batching.numBatches
     rw [if_neg hne]
+    simp only [(shuffleDraw_ok_iff N nZ posB negB hasBases).mpr hD]
     simp only [Batching.batchStarts, List.length_map, List.length_range]
     by_cases hm : (!hasBases && Batching.effNegB negB posB == posB) = true
     · rw [if_pos hm]
@@ -532,15 +563,45 @@ theorem C12_batches_per_epoch (N posB : Nat) (negB : Option Nat) (hasBases : Boo
 
 /-- **C12.10** `fit` called with the caller's arguments (`pos_batch_size ≥ 1`) is the state machine with
 `⌈N/pos_batch_size⌉` batches per epoch and the listed callbacks — all protocol theorems above apply to it. -/
-theorem C12_fit_args (a : Args) (R : Req) (stop₀ : Bool) (hB : 1 ≤ a.posB) :
+theorem C12_fit_args (a : Args) (R : Req) (stop₀ : Bool) (hB : 1 ≤ a.posB)
+    (hD : a.start ≤ a.epochs → DrawsOk a.N a.nZ a.posB a.negB a.hasBases) :
     fitArgs a R stop₀ = .ok (fit { start := a.start, epochs := a.epochs, numBatches := (a.N + a.posB - 1) / a.posB,
                                    cbs := a.callbacks.elems, timer := a.time, hasSched := a.hasSched } R stop₀) := by
   unfold fitArgs
   cases stop₀
-  · simp only [Bool.false_eq_true, if_false]
-    rw [(C12_batches_per_epoch a.N a.posB a.negB a.hasBases hB).1]
-    simp only [Args.cfg, (C12_callbacks_container a R false 0).1]
+  · have hne : a.posB ≠ 0 := by omega
+    simp only [Bool.false_eq_true, if_false, Batching.numBatches, if_neg hne]
+    by_cases hr : a.epochs < a.start
+    · simp only [if_pos hr, Args.cfg, (C12_callbacks_container a R false 0).1]
+    · simp only [if_neg hr]
+      rw [(C12_batches_per_epoch a.N a.nZ a.posB a.negB a.hasBases hB (hD (by omega))).1]
+      simp only [Args.cfg, (C12_callbacks_container a R false 0).1]
   · simp only [if_true, fit_stopped]
+
+/-- **C12.10b** (where the code raises, the model raises) A call whose epoch range is not empty and whose
+`_shuffle_data` has nothing to draw the negative indices from (bases given but no reference-basis row in the
+data; no rows at all with `neg_batch_size ≠ pos_batch_size`) does not complete: `fit` raises `RuntimeError`
+(`torch.randint(0, …)`) — and so does `pos_batch_size = 0` (`ZeroDivisionError`) for every epoch range.
+By then `on_train_start` has reached every listed callback, in list order, and nothing else has happened: the
+abort trace is `[train-start]`, WITHOUT train-end (such calls are outside the property's "training run":
+SCOPE NOTE in claims.d/C12.json). A call on an object whose flag is set never raises. -/
+theorem C12_fit_args_abort (a : Args) (R : Req) :
+    (1 ≤ a.posB → a.start ≤ a.epochs → ¬ DrawsOk a.N a.nZ a.posB a.negB a.hasBases →
+      fitArgs a R false = .error .RuntimeError) ∧
+    (a.posB = 0 → fitArgs a R false = .error .ZeroDivisionError) ∧
+    (∃ out, fitArgs a R true = .ok out) ∧
+    events (fitArgsAbortLog a R) = [.trainStart] ∧
+    calls (fitArgsAbortLog a R) = a.callbacks.elems.map (fun i => (i, Event.trainStart)) := by
+  refine ⟨?_, ?_, ⟨fit (a.cfg 0) R true, by simp only [fitArgs, if_true]⟩, ?_, ?_⟩
+  · intro hB hr hbad
+    have hne : a.posB ≠ 0 := by omega
+    have hr' : ¬ a.epochs < a.start := by omega
+    simp only [fitArgs, Bool.false_eq_true, if_false, Batching.numBatches, if_neg hne, if_neg hr', batchesPerEpoch,
+      shuffleDraw_error _ _ _ _ _ hbad]
+  · intro h0
+    simp only [fitArgs, Bool.false_eq_true, if_false, Batching.numBatches, h0, if_true]
+  · simp only [fitArgsAbortLog, dispatch_events]
+  · simp only [fitArgsAbortLog, dispatch_calls, Args.cfg, (C12_callbacks_container a R false 0).1]
 
 /-- **C12.4c** The request persists across calls: on an object whose flag is set, every further `fit` call
 (whatever its arguments and callbacks) is a no-op and leaves the flag set, until the caller clears the flag. -/
@@ -558,7 +619,7 @@ theorem C12_session_stopped (runs : List Run) (h : ∀ r ∈ runs, r.pre = none)
 reset) is silent, the third (after `stop_training = False`) runs again — with a tuple of callbacks and
 `neg_batch_size > pos_batch_size` (10 rows, batches of 3 → 4 batches per epoch). -/
 example :
-    let a : Args := { start := 1, epochs := 2, N := 10, posB := 3, negB := some 5, hasBases := false,
+    let a : Args := { start := 1, epochs := 2, N := 10, posB := 3, negB := some 5, hasBases := false, nZ := 0,
                       callbacks := .tuple [0, 1], time := false, hasSched := false }
     let R1 : Req := { cb := fun i ev => i == 0 && ev == Event.epochEnd 1, mid := fun _ _ => false }
     let R0 : Req := { cb := fun _ _ => false, mid := fun _ _ => false }
@@ -736,10 +797,11 @@ theorem C12_scheduler_once_per_epoch_no_batches (c : Cfg) (R : Req) (stop₀ : B
   split <;> rfl
 
 /-- `fit(data with 0 rows, pos_batch_size ≥ 1, …)` is the zero-batch state machine. -/
-theorem C12_fit_args_no_rows (a : Args) (R : Req) (stop₀ : Bool) (hB : 1 ≤ a.posB) (hN : a.N = 0) :
+theorem C12_fit_args_no_rows (a : Args) (R : Req) (stop₀ : Bool) (hB : 1 ≤ a.posB) (hN : a.N = 0)
+    (hD : a.start ≤ a.epochs → a.hasBases = false ∧ Batching.effNegB a.negB a.posB = a.posB) :
     fitArgs a R stop₀ = .ok (fit { start := a.start, epochs := a.epochs, numBatches := 0,
                                    cbs := a.callbacks.elems, timer := a.time, hasSched := a.hasSched } R stop₀) := by
-  rw [C12_fit_args a R stop₀ hB, hN]
+  rw [C12_fit_args a R stop₀ hB (fun hr => ⟨by simp [(hD hr).1], fun _ h => absurd (hD hr).2 h⟩), hN]
   have : (0 + a.posB - 1) / a.posB = 0 := by
     apply Nat.div_eq_of_lt; omega
   rw [this]
